@@ -19,8 +19,10 @@ RULE = ("a case = one malformed-but-checksum-valid response frame (or a mix of s
         "x operation; non-trivial = the frame passes the outer checksum (so it reaches the parsers)")
 ASSUMPTIONS = ["frames are delivered inside authentic V2 packets (transport-level malformation is C09's business)",
                "the good frame in a mix is a state response decoded per the C11 reference"]
-ANCHORS = ["command.py:Response.construct", "command.py:CapabilitiesResponse._parse_capabilities", "command.py:PropertiesResponse._parse",
-           "command.py:StateResponse._parse", "device.py:AirConditioner._send_command_get_responses", "device.py:AirConditioner.get_capabilities"]
+# reach anchors: only entry points this check calls itself or callbacks the event loop needs (robust against internal refactors);
+# that the mechanism was really exercised is demanded through MIN_NONTRIVIAL / MIN_HIST outcome counts
+ANCHORS = ["command.py:Response.construct", "device.py:AirConditioner.get_capabilities", "device.py:AirConditioner.refresh", "device.py:AirConditioner.apply",
+           "device.py:AirConditioner.toggle_display", "device.py:AirConditioner.start_self_clean"]
 MIN_NONTRIVIAL = {"quick": 5000, "thorough": 60000}
 MIN_HIST = {"quick": {"mix-good-applied": 150}, "thorough": {"mix-good-applied": 2000}}
 WORKERS = {"quick": 1, "thorough": 16}
@@ -121,6 +123,16 @@ def _frames(ctx, rng):
             b = bytearray(ln)
             b[0:4] = bytes([0xC1, 0x21, 0x01, 0x40 | grp])
             yield "group-data", _rebuild(bytes(b))
+    # frames whose outer checksum is WRONG (the error path itself must not raise), for every frame-type byte and other header bytes
+    for ft in range(256):
+        f = bytearray(_rebuild(bytes([0xC0]) + rng.randbytes(22), ft))
+        f[-1] ^= 0x3C
+        yield "bad-checksum-frametype", bytes(f)
+    for pos in (1, 2, 3, 8):
+        for v in (0x00, 0x01, 0x7F, 0x80, 0xFF):
+            f = bytearray(valid["state"])
+            f[pos] = v
+            yield "bad-checksum-header", bytes(f)
     # ids x frame types
     for rid in range(256):
         for ft in (2, 3, 4, 5, 6, 0xA0):
